@@ -159,6 +159,10 @@ impl Clone for Node {
         let _u = UserScope::new();
         let w = world();
         w.nclones += 1;
+        if w.clone_panics {
+            w.clone_panics = false;
+            std::panic::panic_any(ClonePanic);
+        }
         let id = w.clone_id;
         if w.clone_shallow {
             // a payload whose Clone does not re-share the handles stored in the original
@@ -180,6 +184,7 @@ impl Clone for Node {
     }
 }
 
+struct ClonePanic;
 struct PanicMarker(#[allow(dead_code)] u32);
 
 impl Drop for Node {
@@ -284,6 +289,7 @@ struct World {
     nclones: u32,
     clone_id: u32,
     clone_shallow: bool,
+    clone_panics: bool,
     sworld: stdworld::SWorld,
     std_on: bool,
     stdrep: String,
@@ -1080,7 +1086,7 @@ fn exec(w: &mut World, op: &Op, in_dtor_of: Option<&Node>, dry: bool) -> Option<
             let r = lib(|| unsafe { Rc::get_mut(&mut *p).is_some() });
             Some(if r { "some" } else { "none" }.into())
         }
-        "MakeMut" | "MakeMutS" => {
+        "MakeMut" | "MakeMutS" | "MakeMutP" => {
             if !made(w, a) || w.roots[a as usize].is_empty() || !intact(w, a) {
                 return None;
             }
@@ -1090,11 +1096,14 @@ fn exec(w: &mut World, op: &Op, in_dtor_of: Option<&Node>, dry: bool) -> Option<
             };
             let newid = w.objs.len() as u32;
             let branch = if sc != 1 { "cloned" } else if wc != 0 { "moved" } else { "unique" };
+            // MakeMutP: the payload's Clone panics -- only meaningful on the cloning branch
+            let clone_panics = op.op == "MakeMutP" && branch == "cloned";
             // the call line must carry the id of the allocation make_mut will create
             if dry {
-                return Some(if branch == "unique" { "0".into() } else { newid.to_string() });
+                return Some(if branch == "unique" || clone_panics { "0".into() } else { newid.to_string() });
             }
             w.clone_shallow = op.op == "MakeMutS";
+            w.clone_panics = clone_panics;
             if branch == "cloned" && !w.clone_shallow {
                 // cloning the value clones every stored strong handle: predicted abort
                 let n = node(w, a);
@@ -1105,14 +1114,15 @@ fn exec(w: &mut World, op: &Op, in_dtor_of: Option<&Node>, dry: bool) -> Option<
             }
             w.clone_id = newid;
             pad_layout(w);
-            let mut h = w.roots[a as usize].pop()?;
-            lib(|| {
-                Rc::make_mut(&mut h);
+            // in place: if Clone panics the handle stays where it is while the call unwinds
+            let p = w.roots[a as usize].last_mut()? as *mut Rc<Node>;
+            lib(|| unsafe {
+                Rc::make_mut(&mut *p);
             });
             if branch == "unique" {
-                w.roots[a as usize].push(h);
                 return Some("unique".into());
             }
+            let h = w.roots[a as usize].pop()?;
             let addr = verif::rcbox_addr(&h);
             unsafe {
                 if let Some(sl) = track::slot_of(addr) {
@@ -1278,7 +1288,7 @@ fn top_call(w: &mut World, op: &Op) {
         return; // not enabled in this world: nothing is called, nothing is logged
     }
     let mut opx = op.clone();
-    if op.op == "MakeMut" || op.op == "MakeMutS" {
+    if op.op == "MakeMut" || op.op == "MakeMutS" || op.op == "MakeMutP" {
         opx.b = pre.as_deref().unwrap_or("0").parse().unwrap_or(0);
     }
     let op = &opx;
@@ -1289,7 +1299,10 @@ fn top_call(w: &mut World, op: &Op) {
         Ok(Some(s)) => (s, false),
         Ok(None) => ("disabled".to_string(), false),
         Err(e) => {
-            if e.downcast_ref::<PanicMarker>().is_some() {
+            if e.downcast_ref::<ClonePanic>().is_some() {
+                // the payload's Clone panicked inside make_mut: no destructor was interrupted
+                ("cpanic".to_string(), false)
+            } else if e.downcast_ref::<PanicMarker>().is_some() {
                 ("panic".to_string(), true)
             } else {
                 let msg = if let Some(s) = e.downcast_ref::<&str>() {
@@ -1488,7 +1501,7 @@ fn drive_script(rng: &mut SmallRng, len: usize, nobj: u32, profile: &str, script
     let consume = profile == "consume" || profile == "std";
     let stdp = profile == "std";
     let mut scripted = 0u32;
-    let cons: &[&str] = &["TryUnwrap", "GetMut", "MakeMut", "MakeMutS", "IntoRaw", "FromRaw", "IncStrong", "DecStrong", "DropDetached", "TryUnwrap"];
+    let cons: &[&str] = &["TryUnwrap", "GetMut", "MakeMut", "MakeMutS", "MakeMutP", "IntoRaw", "FromRaw", "IncStrong", "DecStrong", "DropDetached", "TryUnwrap"];
     let mut done: Vec<Op> = Vec::new();
     let order = profile == "order";
     let build: &[&str] = if stdp {
@@ -1577,10 +1590,10 @@ fn drive_script(rng: &mut SmallRng, len: usize, nobj: u32, profile: &str, script
         }
         let op = Op { op: name.to_string(), a: if name == "New" { n + 1 } else { a }, b: match name {
             "New" | "CloneRoot" | "DropRoot" | "AdoptSame" | "UnadoptSame" | "Downgrade" | "Upgrade" | "WeakClone" | "WeakDrop"
-            | "WeakIntoRaw" | "WeakFromRaw" | "TryUnwrap" | "GetMut" | "MakeMut" | "MakeMutS" | "IntoRaw" | "FromRaw" | "IncStrong" | "DecStrong" | "DropDetached" | "Misc" => 0,
+            | "WeakIntoRaw" | "WeakFromRaw" | "TryUnwrap" | "GetMut" | "MakeMut" | "MakeMutS" | "MakeMutP" | "IntoRaw" | "FromRaw" | "IncStrong" | "DecStrong" | "DropDetached" | "Misc" => 0,
             _ => b,
         }, d };
-        if (name == "MakeMut" || name == "MakeMutS") && n >= nobj {
+        if (name == "MakeMut" || name == "MakeMutS" || name == "MakeMutP") && n >= nobj {
             continue; // no identity left for the allocation make_mut may create
         }
         if (strict || strict_adopt) && n > 0 {
